@@ -2,6 +2,7 @@ import Proofs.C12
 import Proofs.C02Hist
 import Proofs.C02Cross
 import Proofs.C02Nested
+import Model.StringSpec
 /-!
 # C02 — Marshal then Unmarshal gives back the value (property theorems)
 
@@ -618,6 +619,105 @@ example : FieldsRT 4 [.int, .list .text, .text] [.ptr (.int .int false), .slice 
     subst hb; simp [encInt]
   · exact C02_nested_roundtrip 4 _ _ _ (.nilSlice (Or.inl rfl) _)
   · intro b hb; simp [marshal] at hb
+
+/-! ## STRING SOURCES (op `sstr`): refused, or written as the value the string denotes — never silently altered -/
+
+/-- what the specification `StrSpec.strSpec` (Model/StringSpec.lean, compared with the real code on every generated string)
+    demands of a Go string bound to an inet column: (1) an answer `ok bytes back` is given ONLY for a string that is an IP
+    address literal WITHOUT zone; the bytes are that address (IPv4-mapped ↦ 4 bytes) and the string a `*string` gets back
+    denotes the same address again; (2) a literal with a zone — a value the column cannot hold — must be refused, whatever
+    the address and the zone (the class seed C02-8 alters: the zone was dropped silently); (3) a string that is no literal
+    at all must be refused. -/
+theorem C02_inet_string_no_silent_loss (s : Bytes) :
+    (∀ b back, StrSpec.strSpec .inet s = .ok b back →
+      ∃ a, StrSpec.parseIP s = some (a, []) ∧ b = StrSpec.unmap a ∧
+        ∃ a', StrSpec.parseIP back = some (a', []) ∧ StrSpec.unmap a' = b) ∧
+    (∀ a z, StrSpec.parseIP s = some (a, z) → z ≠ [] → StrSpec.strSpec .inet s = .merr) ∧
+    (StrSpec.parseIP s = none → StrSpec.strSpec .inet s = .merr) := by
+  refine ⟨?_, ?_, ?_⟩
+  · intro b back h
+    simp only [StrSpec.strSpec] at h
+    cases hp : StrSpec.parseIP s with
+    | none => rw [hp] at h; cases h
+    | some az =>
+      obtain ⟨a, z⟩ := az
+      rw [hp] at h
+      simp only at h
+      by_cases hz : z = []
+      · subst hz
+        simp only [ne_eq, not_true_eq_false, if_false] at h
+        cases hb : StrSpec.parseIP (Marshal.ipString (StrSpec.unmap a)) with
+        | none => rw [hb] at h; cases h
+        | some az' =>
+          obtain ⟨a', z'⟩ := az'
+          rw [hb] at h
+          cases z' with
+          | nil =>
+            simp only at h
+            split at h
+            · rename_i hu
+              injection h with h1 h2
+              subst h1; subst h2
+              exact ⟨a, rfl, rfl, a', hb, hu⟩
+            · cases h
+          | cons _ _ => cases h
+      · simp [hz] at h
+  · intro a z hp hz
+    simp [StrSpec.strSpec, hp, hz]
+  · intro hp
+    simp [StrSpec.strSpec, hp]
+
+/-- non-vacuity, kernel-checked = the failing input of seed C02-8 (`sstr inet 666538303a3a312565746830`): "fe80::1%eth0"
+    is the address fe80::1 with zone "eth0" and must be refused; without the zone it is accepted -/
+example : StrSpec.parseIP [102, 101, 56, 48, 58, 58, 49, 37, 101, 116, 104, 48] =
+    some ([254, 128, 0, 0, 0, 0, 0, 0, 0, 0, 0, 0, 0, 0, 0, 1], [101, 116, 104, 48]) := by decide
+example : StrSpec.strSpec .inet [102, 101, 56, 48, 58, 58, 49, 37, 101, 116, 104, 48] = .merr := by decide
+example : StrSpec.parseIP [102, 101, 56, 48, 58, 58, 49] = some ([254, 128, 0, 0, 0, 0, 0, 0, 0, 0, 0, 0, 0, 0, 0, 1], []) := by decide
+
+/-- date and integer columns: `ok` only for a string that is a date `YYYY-MM-DD` of the calendar (February 29 in leap
+    years only, …) — and then a `*string` gets back the very same string — resp. a decimal literal whose number the
+    column holds, written as the specification's bytes of that number; everything else must be refused -/
+theorem C02_date_int_string_no_silent_loss (s : Bytes) :
+    (∀ b back, StrSpec.strSpec .date s = .ok b back →
+      (s = [] ∧ b = [] ∧ back = []) ∨
+      (back = s ∧ ∃ d, StrSpec.parseDate s = some d ∧ b = beBytes 4 (d + 2147483648).toNat)) ∧
+    (∀ t w b back, StrSpec.intBytes t = some w → StrSpec.strSpec t s = .ok b back →
+      ∃ n, Marshal.parseDec s = some n ∧ fitsS w n = true ∧ b = tcEnc w n ∧ back = formatInt n) := by
+  refine ⟨?_, ?_⟩
+  · intro b back h
+    simp only [StrSpec.strSpec] at h
+    split at h
+    · injection h with h1 h2
+      rename_i hs
+      exact Or.inl ⟨hs, h1.symm, h2.symm⟩
+    · cases hd : StrSpec.parseDate s with
+      | none => rw [hd] at h; cases h
+      | some d =>
+        rw [hd] at h
+        injection h with h1 h2
+        exact Or.inr ⟨h2.symm, d, rfl, h1.symm⟩
+  · intro t w b back ht h
+    have key : ∀ (o : StrSpec.Outcome),
+        o = (match Marshal.parseDec s with
+          | none => StrSpec.Outcome.merr
+          | some n => if fitsS w n = true then .ok (tcEnc w n) (formatInt n) else .merr) →
+        o = .ok b back → ∃ n, Marshal.parseDec s = some n ∧ fitsS w n = true ∧ b = tcEnc w n ∧ back = formatInt n := by
+      intro o ho h
+      subst ho
+      cases hp : Marshal.parseDec s with
+      | none => rw [hp] at h; cases h
+      | some n =>
+        rw [hp] at h
+        simp only at h
+        split at h
+        · rename_i hf
+          injection h with h1 h2
+          exact ⟨n, rfl, hf, h1.symm, h2.symm⟩
+        · cases h
+    cases t <;> simp [StrSpec.intBytes] at ht <;> subst ht <;> exact key _ rfl h
+
+example : StrSpec.strSpec .date [50, 48, 50, 51, 45, 48, 50, 45, 50, 57] = .merr := by decide   -- "2023-02-29"
+example : StrSpec.parseDate [49, 57, 54, 57, 45, 49, 50, 45, 51, 49] = some (-1) := by decide    -- "1969-12-31"
 
 /-- FULL STATEMENT (does not hold): "… into any documented target type able to represent the value".  2^63 written by a
     bare uint64 into a varint column (00 80 00 00 00 00 00 00 00) decodes into *uint64 and *big.Int, but `*uint`, which
